@@ -177,7 +177,7 @@ def take_rle(it, width=2):
 
 class C11(core.Check):
     pid = "C11"
-    gen_modules = ["str_util", "wcwidth_table"]
+    gen_modules = ["str_util", "str_loops", "wcwidth_table"]
     model_targets = ["theories/Model/Width.vo"]
     prop_file = "theories/Properties/C11.v"
     extract_v = "Extract/C11X.v"
@@ -198,7 +198,9 @@ class C11(core.Check):
             "operation returned a non-empty result); distinct by hash of (case, outcome)")
     trusted_base = [
         "Coq 8.16.1 kernel (coqc; vm_compute used for closed finite facts: byte masks over all 256 bytes, the dumped width table, the DEC tables)",
-        "tools/py2v translator incl. the subclasses in tools/py2v/mods/str_util.py (get_char_width, decode_one arithmetic, calc_trim_text, DEC tables regenerated every run)",
+        "tools/py2v translator incl. the subclasses in tools/py2v/mods/str_util.py and mods/str_loops.py (get_char_width, decode_one arithmetic, calc_trim_text, DEC tables, "
+        "and the loops within_double_byte / calc_text_pos / calc_string_text_pos / move_next_char / move_prev_char / is_wide_char / calc_width fallback / rle_get_at / rle_len / rle_subseg, regenerated every run; "
+        "loop fuel expressions are supplied by the module, out-of-fuel is an error value proved unreachable where stated)",
         "tools/py2v/mods/wcwidth_table.py dump of the installed wcwidth (compared with get_char_width over all 0x110000 code points every run)",
         "extraction: ExtrOcamlBasic only; Z/positive stay Coq datatypes; OCaml 4.13.1; tools/driver/driver.ml",
         "hand-written parts of Model/Width.v (loops of str_util.py, rle functions, apply_target_encoding splitting) and Base/Utf8.v "
@@ -831,7 +833,7 @@ class C11(core.Check):
         # extra double-byte encodings on the alphabet (trail bytes below 0x80 exist in big5/gbk)
         for e in ("big5", "gbk", "euc-kr"):
             for n in range(0, 3):
-                for tup in itertools.product([ord("a"), ord("@"), 0x4E16, 0x4E00, 0x2500, 0x3042], repeat=n):
+                for tup in itertools.product([ord("a"), ord("@"), 0x4E16, 0x4E00, 0x2500, 0x3042, 0x4E02], repeat=n):   # U+4E02 = GBK 81 40
                     yield {"k": "text", "mode": "bytes", "enc": e, "s": list(tup), "cols": 5}
         # every code point individually
         step = 8192
@@ -918,11 +920,21 @@ C11.level_text = (
     "run lengths sum to the encoded length for every input and codec; for every string without raw SO/SI and every codec that "
     "leaves ASCII alone, each DEC character maps to its alternate byte (translated tables) and exactly the DEC positions carry "
     "the '0' charset.  "
-    "NOT proved (stated as Definition trim_text_attr_cs_lengths_full in Properties/C11.v; decided by the exact "
-    "model-vs-implementation correspondence and the oracle only): trim_text_attr_cs lengths for arbitrary bytes in every mode "
-    "(proved for the UTF-8 encoding of a text and whenever calc_trim_text returns an in-range slice); nothing is proved about "
-    "Python's own CJK codecs (only urwid's byte-range logic is modelled); on invalid UTF-8 only totality is proved "
-    "(decode_one yields a chr()-acceptable value for ANY bytes, so calc_width / calc_text_pos / is_wide_char never raise on in-range offsets)."
+    "trim_text_attr_cs: for ARBITRARY text in every mode the trimmed text, attribute runs and charset runs have one length.  "
+    "Arbitrary (invalid / truncated) input: decode_one yields a chr()-acceptable value for ANY bytes, so UTF-8 calc_width / "
+    "calc_text_pos / is_wide_char never raise on in-range offsets; move_next_char (utf8) always terminates, advances and stays "
+    "in range; move_prev_char (utf8) never loops, and stays in range when start_offs is on a boundary; the double-byte "
+    "move_prev_char stays in range, move_next_char advances by 1 or 2.  REFUTED for malformed input (witnesses proved on the "
+    "model and replayed on the implementation from corpus/C11): move_prev_char(b'\\x80a',0,1) = -1, "
+    "move_prev_char(b'\\x80\\x80',0,2) raises IndexError (start not on a boundary), move_next_char(b'\\xa4',0,1) = 2 in "
+    "double-byte mode (lone lead byte) - outside the property, which speaks of strings and their encoded forms.  "
+    "TIE: get_char_width, decode_one's arithmetic, calc_trim_text, the DEC tables AND within_double_byte, "
+    "calc_string_text_pos, calc_text_pos, move_next_char, move_prev_char, is_wide_char, the fallback loop of calc_width, "
+    "rle_get_at, rle_len, rle_subseg are re-translated from the source on every run (py2v); the extracted model runs the "
+    "translated functions and Coq proves them equal to the hand-written specifications for all inputs (GenEq.v).  Hand-written "
+    "and tied by correspondence only: decode_one's byte fetch, calc_width's dispatch and CPython's strict decoder, "
+    "rle_append/prepend/join_modify and rle_product (in-place list mutation), apply_target_encoding (str methods), "
+    "trim_text_attr_cs's wiring.  Nothing is proved about Python's own CJK codecs."
 )
 C11.level_note = (
     "Trusted: Coq kernel, py2v (+ the subclasses in mods/str_util.py), the wcwidth dump, extraction + OCaml driver, the hand-written "
